@@ -197,7 +197,7 @@ where R: EucRing + Send + Sync, for<'x> &'x R: EucRingOps<R> {
 }
 
 pub fn run(ctx: &mut Ctx) {
-    let n = ctx.by_tier(800u64, 40_000);
+    let n = ctx.by_tier(2_000u64, 40_000);
     ctx.random_cases("canon", n * 2, |c, r| canon_case(c, r));
     ctx.random_cases("canon/Q[H]", n * 2, |c, r| canon_generic::<Poly<'H', Ratio<i64>>>(c, r, "Q[H]", Poly::variable()));
     ctx.random_cases("canon/F3[H]", n / 2, |c, r| canon_generic::<Poly<'H', FF<3>>>(c, r, "F3[H]", Poly::variable()));
